@@ -50,7 +50,7 @@ CHECKS["C04"] = {
     "category": "model_checking",
     "text": "TLC explores the protocol model with a Fault action enabled at every step of append / delete / expire / delete-snapshot commits (exception before effect; effect-then-exception at the object-storage pointer write; asynchronous KeyboardInterrupt/SystemExit at every boundary), single and double faults, context-manager and explicit call styles, local / CAS / non-CAS backends, checking ReachablePresent, AckedOnce (ok => reflected once, error => not at all, ambiguous/interrupted => at most once), NoDeleteOnAmbiguous, Serializable. Binding: on the real library every scheduling point of every operation kind is failed once (OSError before effect, KeyboardInterrupt, SystemExit), alone and with a racing committer; TLC validates each trace against the same actions, so the error path the code takes (what it deletes, keeps and reports) must be the model's, and every invariant is evaluated after every event including the follow-up commit.",
     "design_ref": "DESIGN.md 6/C04",
-    "note": "Trusted: as C01. Asynchronous exceptions are delivered at scheduling points only. After-effect faults on object storage are model-checked; on the real code they are exercised against the in-memory S3 (see C08). Lock-release failures are modelled as swallowed. Bounded: one victim operation + follow-up, budget <=2 faults.",
+    "note": "Trusted: as C01. Asynchronous exceptions are delivered at scheduling points only. After-effect faults are placed at the pointer write only (model and in-memory S3 binding); elsewhere they are equivalent to a failure of the next request. Lock-release failures are modelled as swallowed. Bounded: one victim operation + follow-up, budget <=2 faults.",
     "technique": "TLA+ protocol spec with fault actions model-checked by TLC; trace validation of real executions with a fault injected at every scheduling point",
 }
 
@@ -128,6 +128,12 @@ CHECKS["C18"] = _e("model_checking",
     "DESIGN.md 6/C18",
     "Trusted: as C01/C08. 'Creation interrupted' initial states = metadata written but pointer missing (plus C03's crash enumeration of create). With a lock that grants everyone a caller may transiently resolve an unpublished v0 by scanning; convergence on one table is what is required there (documented in the spec).",
     "TLA+ protocol spec with creation model-checked by TLC; trace validation of real scheduled create_table races (local + in-memory S3)")
+
+CHECKS["C10"] = _e("model_checking",
+    "DataShard.tla pointer resolution (HintedName / BestSet / CanResolve = transcription of the pointer parse, the existence check of its target and recovery by scanning: highest version, newest write time among equals), DamageHint (pointer lost / non-parsing bytes / naming a missing file incl. legacy forms / naming an older committed version) on histories that leave uncommitted metadata behind (failed and conflicting commits, local and CAS backends, a committer that dies between the metadata write and the pointer flip), followed by open/create, append and reads. TLC checks ResolveLatestCommitted, NeverReinitialised, SingleInit, Serializable, ReachablePresent; the pre-repair commit that keeps its metadata file on a clean failure must fail. Binding: on the real library a fault is injected at every scheduling point of a commit, then the pointer file is overwritten with each concrete byte string of the class grammar (empty, whitespace, non-UTF-8, BOM, NUL, upper-case hex, 7 hex digits, negative number, free text, dangling names with CRLF, legacy numbers incl. overlong, legacy names), then create_table/open, append and a scan run; every trace is validated by TLC and the independent reader's final observation must equal the model's storage.",
+    "DESIGN.md 6/C10",
+    "Two open known findings (stale well-formed pointer is trusted; a never-committed metadata file left by a dead committer - or adopted in flight under a broken lock - is surfaced once the pointer is lost) are kept as must-fail model companions and reproduced on the real code each run. Pointer damage is applied while no operation is in flight. Ambiguous (possibly committed) versions are not combined with pointer damage.",
+    "TLA+ protocol spec with pointer-damage actions model-checked by TLC; trace validation of real executions with byte-level pointer damage after injected commit failures")
 
 NOT_YET: dict = {}
 
